@@ -194,13 +194,29 @@ def gen_des_cases(rng, prep: Prepared, tids: typing.List[str], per_type: int, n_
             encs[tid].append((v, bytes.fromhex(t[2] if t[2] != '-' else '')))
     cases: typing.List[Case] = []
     for tid in tids:
-        for i, (b, tags) in enumerate(valgen.gen_bytes(rng, prep.db, tid, per_type, encs[tid])):
-            prior = 'fresh'
-            if i % 7 == 3:
-                prior = 'poison'
-            elif i % 7 == 5 and encs[tid]:
-                prior = 'prev:' + (rng.choice(encs[tid])[1].hex() or '-')
-            cases.append(Case('des', tid, data=b, prior=prior, tags=tags + ['prior_' + prior.split(':')[0]]))
+        items = list(valgen.gen_bytes(rng, prep.db, tid, per_type, encs[tid]))
+        # truncations INSIDE arrays that the generated code copies in bulk (bit-packed bool[], byte[], standard-width primitive
+        # arrays) and that start at a non byte-aligned offset: the zero extension of the partially copied last byte is only
+        # observable when the destination object was not zero beforehand
+        have = {b for b, _ in items}
+        extra = 0
+        for v, e in sorted(encs[tid], key=lambda x: -len(x[1]))[:3]:
+            for (lo, hi, kind) in valgen.bulk_regions(prep.db, tid, v):
+                cuts = [c for c in range((lo + 7) // 8, (hi + 7) // 8 + 1) if lo < 8 * c < hi and c <= len(e)]
+                for cut in cuts[:2] + cuts[-2:]:
+                    if e[:cut] not in have and extra < 10:
+                        have.add(e[:cut])
+                        extra += 1
+                        items.append((e[:cut], ['truncation', 'cut_in_unaligned_bulk_array', 'cut_in_unaligned_' + kind]))
+        nonzero = [x for x in encs[tid] if any(x[1])] or encs[tid]
+        for i, (b, tags) in enumerate(items):
+            # the specified result does not depend on what the destination object held before: every byte string is decoded into
+            # a fresh object AND into a 0xA5-poisoned one (C) AND into one that already holds another decoded value (C, C++)
+            cases.append(Case('des', tid, data=b, prior='fresh', tags=tags + ['prior_fresh', 'prior_base']))
+            cases.append(Case('des', tid, data=b, prior='poison', tags=tags + ['prior_poison', 'prior_variant']))
+            if nonzero:
+                prev = rng.choice(nonzero)[1]
+                cases.append(Case('des', tid, data=b, prior='prev:' + (prev.hex() or '-'), tags=tags + ['prior_prev', 'prior_variant']))
     return cases
 
 
@@ -229,6 +245,11 @@ def applicable(tgt: proto.Target, c: Case) -> bool:
         if any(t.startswith('f16_overflow') for t in c.tags):
             return False
         return 'cap_max' in c.tags or 'corpus' in c.tags
+    if c.op == 'des' and 'prior_variant' in c.tags:
+        if tgt.name == 'py':
+            return False                      # a Python deserializer always builds a new object
+        if tgt.name == 'cpp' and 'prior_poison' in c.tags:
+            return False                      # the C++ runner treats poison as fresh
     return True
 
 
@@ -474,7 +495,16 @@ def run(chk: core.Check, direction: str, generators: typing.List[str], trusted: 
             cases = corpus_cases(prep, 'des') + gen_des_cases(chk.rng, prep, tids, sizes['per_type'], sizes['n_values'])
         for c in cases:
             c.req = make_request(prep.model, c)
-        for c, r in zip(cases, prep.model.run([c.req for c in cases])):
+        # the specified answer does not depend on the prior state of the destination: ask the model once per distinct input
+        def _key(c):
+            return (c.op, c.tid, c.req) if c.op == 'ser' else (c.op, c.tid, c.data)
+        reps: typing.Dict[typing.Any, int] = {}
+        for i, c in enumerate(cases):
+            reps.setdefault(_key(c), i)
+        rep_idx = sorted(reps.values())
+        answers = dict(zip(rep_idx, prep.model.run([cases[i].req for i in rep_idx])))
+        for c in cases:
+            r = answers[reps[_key(c)]]
             c.expected = r
             k = ' '.join(r.split()[:2]) if r.startswith('err') else r.split()[0]
             stats['responses'][k] = stats['responses'].get(k, 0) + 1
@@ -484,8 +514,8 @@ def run(chk: core.Check, direction: str, generators: typing.List[str], trusted: 
                 failures.append({'kind': 'model-crash', 'case': c.to_json(), 'got': r, 'files': spec['files']})
         stats['cases'] += len(cases)
         # the code-shaped walker (Codec/Walker.v, extracted) must answer every request exactly like the specification
-        wreqs = [('w' + c.req) for c in cases]
-        for c, r in zip(cases, prep.model.run(wreqs)):
+        wreqs = [('w' + cases[i].req) for i in rep_idx]
+        for c, r in zip([cases[i] for i in rep_idx], prep.model.run(wreqs)):
             stats['walker_vs_spec_compared'] = stats.get('walker_vs_spec_compared', 0) + 1
             if r != c.expected:
                 failures.append({'kind': 'walker-vs-spec', 'case': c.to_json(), 'spec': c.expected, 'walker': r, 'files': spec['files']})
@@ -501,7 +531,8 @@ def run(chk: core.Check, direction: str, generators: typing.List[str], trusted: 
             return masks[i]
 
         # 2b. specification vs pydsdl.serialize / deserialize
-        sub = cases if chk.tier == 'quick' else cases[::3]
+        sub = [c for c in cases if 'prior_variant' not in c.tags]
+        sub = sub if chk.tier == 'quick' else sub[::3]
         ref = run_pyref(prep, sub)
         if direction == 'ser':      # CPython quietens signalling NaNs: the reference is compared on the quietened value
             qexp = prep.model.run([prep.model.ser_req(c.tid, quiet_comp(db, db.comp(c.tid), c.value), c.cap, c.fill) for c in sub])
@@ -539,10 +570,15 @@ def run(chk: core.Check, direction: str, generators: typing.List[str], trusted: 
         def run_target(item):
             lab, tgt = item
             t0 = time.time()
+            idx = [i for i, c in enumerate(cases) if applicable(tgt, c)]      # requests a target cannot observe are not sent
             try:
-                out = tgt.run(reqs, timeout=600.0 if chk.tier == 'quick' else 3000.0)
+                part = tgt.run([reqs[i] for i in idx], timeout=600.0 if chk.tier == 'quick' else 3000.0)
             except Exception as ex:  # noqa: BLE001
-                out = ['crash runner raised %r' % (ex,)] * len(reqs)
+                part = ['crash runner raised %r' % (ex,)] * len(idx)
+            out = ['skip not applicable'] * len(reqs)
+            for i, r in zip(idx, part):
+                out[i] = r
+            stats.setdefault('target_wall_s', {})[lab] = round(time.time() - t0, 1)
             return lab, tgt, out, time.time() - t0
 
         with concurrent.futures.ThreadPoolExecutor(max_workers=6) as ex:
@@ -552,6 +588,9 @@ def run(chk: core.Check, direction: str, generators: typing.List[str], trusted: 
             stats['target_runs'] += len(out)
             nbad = 0
             for i, (c, got) in enumerate(zip(cases, out)):
+                if got.startswith('skip not applicable'):
+                    stats['not_applicable_to_target'] += 1
+                    continue
                 evaluations += 1
                 if got.startswith('err rejected') or not applicable(tgt, c):
                     stats['rejected_by_target' if got.startswith('err rejected') else 'not_applicable_to_target'] += 1
